@@ -204,29 +204,37 @@ struct _stream<Values...>::type final {
         inplace_stop_token stopToken_;
 
         void set_value(Values&&... values) && noexcept {
+          // This wrapper lives inside the next operation: take what is needed
+          // out of it before that operation is destroyed.
+          auto& receiver = receiver_;
+          auto& stream = stream_;
           UNIFEX_TRY {
             // Take a copy of the values before destroying the next operation
             // state in case the values are references to objects stored in
             // the operation object.
             [&](Values... values) {
-              unifex::deactivate_union_member(stream_.next_);
-              receiver_.set_value((Values&&)values...);
+              unifex::deactivate_union_member(stream.next_);
+              receiver.set_value((Values&&)values...);
             }((Values&&)values...);
           }
           UNIFEX_CATCH(...) {
-            unifex::deactivate_union_member(stream_.next_);
-            receiver_.set_error(std::current_exception());
+            unifex::deactivate_union_member(stream.next_);
+            receiver.set_error(std::current_exception());
           }
         }
 
         void set_done() && noexcept {
+          // This wrapper lives inside the next operation: take what is needed
+          // out of it before that operation is destroyed.
+          auto& receiver = receiver_;
           unifex::deactivate_union_member(stream_.next_);
-          receiver_.set_done();
+          receiver.set_done();
         }
 
         void set_error(std::exception_ptr ex) && noexcept {
+          auto& receiver = receiver_;
           unifex::deactivate_union_member(stream_.next_);
-          receiver_.set_error(std::move(ex));
+          receiver.set_error(std::move(ex));
         }
 
         template <typename Error>
@@ -262,13 +270,17 @@ struct _stream<Values...>::type final {
         stream& stream_;
 
         void set_done() && noexcept {
+          // This wrapper lives inside the cleanup operation: take the
+          // receiver out of it before that operation is destroyed.
+          auto& receiver = receiver_;
           unifex::deactivate_union_member(stream_.cleanup_);
-          receiver_.set_done();
+          receiver.set_done();
         }
 
         void set_error(std::exception_ptr ex) && noexcept {
+          auto& receiver = receiver_;
           unifex::deactivate_union_member(stream_.cleanup_);
-          receiver_.set_error(std::move(ex));
+          receiver.set_error(std::move(ex));
         }
 
         template <typename Error>
